@@ -179,6 +179,15 @@ def run_scaling(case):
 def scaling_cases(draw):
     c = draw(base_params(nmin=16, nmax=400))
     c["model"] = draw(st.sampled_from(["freespace", "resistivewall", "collimator", "parallelplates", "parallelplates"]))
+    if c["model"] == "parallelplates" and draw(st.integers(0, 39)) == 0:
+        # "tends to free space for wide gaps and high frequencies", far out: metres of gap at THz frequencies (tens of
+        # thousands of plate modes are summed there - round-9 seed C16i lets the mode number squared wrap at 2^32); few
+        # samples, the sum costs seconds
+        c["n"] = 16
+        c["gap"] = float(draw(st.sampled_from([3.0, 10.0, 30.0])))
+        c["f0"] = gen.f32(draw(st.sampled_from([9e6, 4.8e7])))
+        c["fmax"] = gen.f32(draw(st.sampled_from([1e13, 3e13])))
+        return c
     if c["model"] == "parallelplates":
         c["n"] = min(c["n"], 200)
         # aim the sampled band at one of the two asymptotic regimes (construction instead of rejection)
